@@ -654,6 +654,13 @@ void QXmppOutgoingClient::handleStream(const QDomElement &streamElement)
         // no version specified, signals XMPP Version < 1.0.
         // switch to old auth mechanism if enabled
         if (d->streamVersion.isEmpty() && configuration().useNonSASLAuthentication()) {
+            // there are no stream features (and no STARTTLS) without a version: never
+            // authenticate over a plain connection if encryption is required
+            if (configuration().streamSecurityMode() == QXmppConfiguration::TLSRequired && !socket()->isEncrypted()) {
+                warning(u"Server does not support TLS"_s);
+                disconnectFromHost();
+                return;
+            }
             startNonSaslAuth();
         }
     }
